@@ -28,8 +28,8 @@ MODES = {'True': True, 'False': False, 'None': None, '1': 1}     # 1: deprecated
 
 def canon_mode(m):
     return 'None' if m == '1' else m
-CALL_LIMIT_S = 15          # one real call (sympy + CBC) normally takes 0.01-0.3 s
-MAX_TIMEOUTS = 3           # after that many, further real calls are not attempted (the check must not hang)
+CALL_LIMIT_S = 8           # one real call (sympy + CBC) normally takes 0.01-0.4 s
+MAX_TIMEOUTS = 6           # after that many, further real calls are not attempted (the check must not hang); all of them are inconclusive
 
 
 class HarnessTimeout(BaseException):
@@ -56,6 +56,10 @@ class time_limit:
         signal.signal(signal.SIGALRM, self.old)
         if typ is HarnessTimeout:
             time_limit.timeouts += 1
+            import sys
+            print('C02: a real call exceeded %d s (CBC runs without a time limit) - inconclusive; %d so far%s' % (
+                CALL_LIMIT_S, time_limit.timeouts, ', circuit breaker open: further real calls are skipped' if time_limit.timeouts >= MAX_TIMEOUTS else ''),
+                file=sys.stderr)
             subprocess.run(['pkill', '-9', '-P', str(os.getpid()), '-f', 'cbc'])   # the solver child keeps running otherwise
         return False
 
@@ -556,6 +560,7 @@ class C02(Property):
 
     def __init__(self):
         self._cache = {}
+        self.n_timeouts = 0
 
     # ---- real calls (cached: model_case, impl and oracle share them) -----------------------------------
     def real(self, inst, mode_s, inject=None, dup=False, nocache=False):
@@ -579,7 +584,10 @@ class C02(Property):
                     out['res'] = None
                     out['exc'] = TimeoutError(str(e))
                     out['line'] = 'TimeoutError'
-                    out['breaker'] = 'earlier real calls' in str(e)    # not attempted at all: inconclusive, never a counterexample
+                    # a real call that does not return in time (CBC is called without a time limit) or that was not attempted because the
+                    # circuit breaker is open is INCONCLUSIVE: never a counterexample, never a disagreement (performance is not part of C02)
+                    out['timeout'] = True
+                    self.n_timeouts += 1
                 except Exception as e:
                     out['res'] = None
                     out['exc'] = e
@@ -629,7 +637,10 @@ class C02(Property):
                     out['res'] = None
                     out['exc'] = TimeoutError(str(e))
                     out['line'] = 'TimeoutError'
-                    out['breaker'] = 'earlier real calls' in str(e)    # not attempted at all: inconclusive, never a counterexample
+                    # a real call that does not return in time (CBC is called without a time limit) or that was not attempted because the
+                    # circuit breaker is open is INCONCLUSIVE: never a counterexample, never a disagreement (performance is not part of C02)
+                    out['timeout'] = True
+                    self.n_timeouts += 1
                 except Exception as e:
                     out['res'] = None
                     out['exc'] = e
@@ -886,6 +897,8 @@ class C02(Property):
         return '!unknown-op'
 
     def same(self, mc, io, mo):
+        if io == 'TimeoutError':          # inconclusive (see real()): skipped, counted in the `timeout/...` buckets of the input distribution
+            return True
         return io == mo
 
     # ---- the property on the real code ------------------------------------------------------------------
@@ -895,7 +908,7 @@ class C02(Property):
         if op == 'inject_nonlinear':
             # whatever linsolve hands back, an answer must not be fabricated: a non-linear "parametrisation" has to be refused
             out = self.real(norm_inst(inst), c['mode'], inject='nonlinear')
-            if out.get('breaker'):
+            if out.get('timeout'):
                 return None
             if out['res'] is not None or not isinstance(out['exc'], ValueError):
                 return 'solver answer (x1**2, x1, ...) in mode %s: %s instead of a ValueError' % (c['mode'], out['line'][:120])
@@ -926,7 +939,7 @@ class C02(Property):
         keys = inst_keys(inst)
         if op == 'dup':
             out = self.real_dup(inst, c['mode'])
-            if out.get('breaker'):
+            if out.get('timeout'):
                 return None
             if out['res'] is None:
                 e = out['exc']
@@ -951,7 +964,8 @@ class C02(Property):
                 with time_limit():
                     out = cc._solve_balancing_ilp_pulp(M)
         except HarnessTimeout as e:
-            return None if 'earlier real calls' in str(e) else '_solve_balancing_ilp_pulp exceeded %d s' % CALL_LIMIT_S
+            self.n_timeouts += 1
+            return None
         except Exception as e:
             return '_solve_balancing_ilp_pulp(%s matrix) raised %s: %s' % (c['entries'], exc_name(e), str(e)[:80])
         x = c['x']
@@ -969,7 +983,7 @@ class C02(Property):
         mode = c['mode']
         out = self.real(inst, mode, nocache=nocache)
         mode = canon_mode(mode)            # `underdetermined=1` must behave as None
-        if out.get('breaker'):
+        if out.get('timeout'):
             return None
         if mode == 'None' and kind == 'planted' and out['ilp'] is not None:
             # the ILP helper's list is consumed POSITIONALLY (entry i = column i of A = i-th species): on a single ray the
@@ -1034,7 +1048,21 @@ class C02(Property):
                 return 'mode None must return python ints'
         return None
 
+    def _timed_out(self, c):
+        inst = c.get('inst')
+        if inst is None or 'mode' not in c and c.get('op') not in ('setup', 'minimal', 'balanced_inst'):
+            return False
+        if c.get('op') == 'dup':
+            out = self._cache.get(json.dumps(['dup', inst, c['mode']], sort_keys=True))
+        else:
+            mode = c.get('mode') or {'setup': 'None', 'minimal': 'None', 'balanced_inst': 'True'}.get(c.get('op'))
+            inj = c.get('cand') if c.get('op') == 'balance_inj' else ('nonlinear' if c.get('op') == 'inject_nonlinear' else None)
+            out = self._cache.get(json.dumps([inst, mode, inj, False], sort_keys=True))
+        return bool(out and out.get('timeout'))
+
     def classify(self, c):
+        if self._timed_out(c):
+            return 'timeout/%s/%s' % (c.get('op'), c.get('kind'))
         via = (c.get('inst') or {}).get('via', 'dict') if c.get('op') == 'balance' else ''
         return '%s/%s/%s%s' % (c.get('op'), c.get('kind'), c.get('mode', '-'), '/' + via if via else '')
 
